@@ -269,10 +269,23 @@ func (c *Persistent) IDs() (ids []string) {
 	}
 
 	for _, mac := range c.MACs {
-		ids = append(ids, mac.String())
+		ids = append(ids, macString(mac))
 	}
 
 	return append(ids, c.ClientIDs...)
+}
+
+// macString returns the text form of mac that [Persistent.setID] reads back as
+// the same hardware address.  The colon form of an 8-byte address is also
+// valid IPv6 text (eight groups of two hexadecimal digits), and setID tries
+// [netip.ParseAddr] first, so use the hyphen form for those.
+func macString(mac net.HardwareAddr) (s string) {
+	s = mac.String()
+	if len(mac) == 8 {
+		s = strings.ReplaceAll(s, ":", "-")
+	}
+
+	return s
 }
 
 // IDsLen returns a length of ClientIDs.
